@@ -90,6 +90,9 @@ static int add_formatted(yaml_document_t *document, const char *format, ...)
 static int add_double(yaml_document_t *document, double value, int precision)
 {
     assert(precision >= 1);
+    if (precision == VNACAL_MAX_PRECISION) {
+	return add_formatted(document, "%a", value);
+    }
     return add_formatted(document, "%.*e", precision - 1, value);
 }
 
